@@ -33,7 +33,7 @@ ASSUMPTIONS = [
     "the reference runs in a fresh interpreter per file with settings re-read from the two JSON files",
     "the schedules observed are those multiprocessing.Pool produces on this machine (fork start method); injected delays widen the set but the evidence only claims the assignments actually logged",
 ]
-NOT_REACHED = ["figure output (--no_figure is always set)", "more than 8 files per batch", "start methods other than fork"]
+NOT_REACHED = ["file names containing glob metacharacters ([ ] ? *): obspy.read() inside the miniSEED reader expands them as patterns on the unchanged tree too, so the single-file reference is not trustworthy for them", "figure output (--no_figure is always set)", "more than 8 files per batch", "start methods other than fork"]
 BUDGET = {"quick": dict(cases=8, seconds=70, shards=4),
           "thorough": dict(cases=256, seconds=900, shards=16)}
 REQUIRED = ["mon:csv-equals-library-pipeline", "mon:every-file-processed-exactly-once", "mon:one-output-per-input-file", "task_events", "cli_runs"]
